@@ -3,6 +3,7 @@
   (definitions only; the theorem that the model's own observations satisfy it is in Props/C15).
 -/
 import IpfixModel.Model.Collector
+import IpfixModel.Model.Builder
 namespace Ipfix.C15
 
 /-- canonical form of a value after one trip over the wire: an IP address comes back in its
@@ -32,5 +33,24 @@ def holdsRT (ie : IE) (v : Value) (tail : Bytes) (o : RTObs) : Bool :=
       recs.head? == some [canon ie v] && (!tail.isEmpty || recs.length == 1)
     | _ => false
   else true
+
+/-- what the `ie recbuf` / `ie recbufx` operations report: the record's reported length and its buffer -/
+inductive BufObs where
+  | buf (len : Nat) (bs : Bytes)
+  | other
+  deriving Repr
+
+/-- C15 on a whole data record, however it was put together (in one go, or grown element by element after its
+    buffer had been taken): the buffer is exactly the reported length, the reported length is the sum of the
+    elements' lengths, and - when every value is one the specification encoder accepts - the bytes are the
+    concatenation of the elements' encodings. -/
+def holdsRecBuf (es : List Elem) (o : BufObs) : Bool :=
+  match o with
+  | .buf len bs =>
+    bs.length == len && len == recordLength es &&
+      (match encodeRecord es with
+       | some want => bs == want
+       | none => true)
+  | .other => false
 
 end Ipfix.C15
